@@ -522,8 +522,8 @@ def _blocks_before(f, bid):
 
 
 # ---------------------------------------------------------------- atomic failure
-def r_atomic(prog, R):
-    r = R.rule("R-C03-ATOMIC", "a failed write leaves the caller's buffer as it was (every failure return passes ares_buf_set_length(buf, orig_len))", floor=2, analysis="M1 must-pass-through on failure paths")
+def r_atomic(prog, R, rid="R-C03-ATOMIC"):
+    r = R.rule(rid, "a failed write leaves the caller's buffer as it was (every failure return passes ares_buf_set_length(buf, orig_len))", floor=2, analysis="M1 must-pass-through on failure paths")
     summ = Summaries(prog)
     for name in ("ares_dns_write_buf", "ares_dns_write_buf_tcp"):
         f = prog.func(name)
